@@ -172,13 +172,13 @@ def plan(tier):
             for name in ("nillable", "holder", "anytyped", "nsattr", "parenta"):
                 jobs.append(Job("rt", {"spec": name, "writer": "native", "handler": "native", "ns": ns, "indent": 0, "ida": 0, "slen": 2, "imax": 100}, 240, 30))
     else:
+        # every builder x writer x handler x every user prefix map; indent / ignore_default_attributes rotate with the map index
         for name in SPECS:
             for w in ("native", "lxml"):
                 for h in ("native", "lxml"):
                     for ns in range(len(NS_MAPS)):
-                        for ind in ((0, 1) if w == "native" else (0,)):
-                            for ida in (0, 1):
-                                jobs.append(Job("rt", {"spec": name, "writer": w, "handler": h, "ns": ns, "indent": ind, "ida": ida, "slen": 2}, 600, 40))
+                        jobs.append(Job("rt", {"spec": name, "writer": w, "handler": h, "ns": ns, "indent": int(w == "native" and ns % 2 == 1), "ida": (ns // 2) % 2,
+                                               "slen": 1 if name in ("unions_str", "compound") else 2, "imax": 1000}, 900, 40))
     return jobs
 
 
